@@ -16,7 +16,7 @@ argument values, all spellings of the specification*.  On the model (`Model/C13.
   `argspec_equiv`, `argspec_sound`, `argspec_skips_absent`, `argspec_wrong_sig_rejected`,
   `join_arguments_spec`, `replace_announces_arguments`;
 * clause "linearize equals the directional derivative": `linearize_spec`, `linearize_hasDerivAt`,
-  `linearize_first_order`;
+  `linearize_first_order`, `linearize_tensor_direction`;
 * clause "factor(f) equals f for every argument value": `factor_sound`, `factor_sound_expr`,
   `argument_degree_upper`.
 -/
@@ -170,6 +170,17 @@ theorem linearize_hasDerivAt {V : Type} [DecidableEq V] (I : String → List ℝ
   have h := Expr.hasDerivAt_line I ρ (Expr.direction ρ pairs) e hp 0
   rw [linearize_spec]
   simpa using h
+
+/-- tensor arguments: `linearize(f, 'u:v')` for an argument with `n` entries contracts over *all* of them — the
+direction moves every entry `u[i]`, `i < n`, along `v[i]` and leaves everything else fixed -/
+theorem linearize_tensor_direction {R : Type} [CommRing R] (I : String → List R → R) (ρ : String × Nat → R)
+    (u v : String) (n : Nat) (e : Expr (String × Nat)) :
+    Expr.eval I ρ (Expr.linearize (expandPair u v n) e) =
+      Expr.dirDeriv I ρ (fun y => if y.1 = u ∧ y.2 < n then ρ (v, y.2) else 0) e := by
+  rw [linearize_spec]
+  congr 1
+  funext y
+  exact Expr.direction_expandPair ρ u v n y
 
 /-! ## factor -/
 
